@@ -223,6 +223,16 @@ class SmtpRelayClient(RelayPoolClient):
 
     def _handle_encoding(self, envelope):
         assert self.client is not None
+        if 'SMTPUTF8' not in self.client.extensions:
+            # Without SMTPUTF8 the addresses have to be sent as ASCII.
+            try:
+                for address in [envelope.sender] + envelope.recipients:
+                    address.encode('ascii')
+            except UnicodeError:
+                reply = Reply('553', '5.6.7 Address requires SMTPUTF8',
+                              command=b'[address conversion]',
+                              address=self.address)
+                raise SmtpRelayError.factory(reply)
         if '8BITMIME' not in self.client.extensions:
             try:
                 envelope.encode_7bit(self.binary_encoder)
